@@ -31,6 +31,15 @@ fn child_run<B: Backend>(spec: &Value) -> (Value, Value) {
         Ok(Err(e)) => json!({"status": "Err", "display": e.to_string()}),
         Err(_) => json!({"status": "Panic"}),
     };
+    // destination state "stale output of exactly the same length": only now is the length known. The previous content is the
+    // new text with one character changed (what recompiling after `(0..10)` -> `(0..20)` leaves behind).
+    if let (Some(p), Some(g)) = (spec["prefill_same_length"].as_str(), reference["generated"].as_str()) {
+        let mut stale = g.as_bytes().to_vec();
+        if let Some(b) = stale.iter_mut().find(|b| b.is_ascii_alphanumeric()) {
+            *b = if *b == b'q' { b'z' } else { b'q' };
+        }
+        let _ = std::fs::write(p, stale);
+    }
     // (2) compile() with the requested output mode
     let mode = match spec["mode"].as_str().unwrap() {
         "stdout" => OutputMode::Stdout,
@@ -96,8 +105,8 @@ fn diff(a: &Snapshot, b: &Snapshot) -> Vec<String> {
     d
 }
 
-const DEST_STATES: [&str; 12] = [
-    "file:absent", "file:existing-shorter", "file:existing-longer", "file:missing-parent", "file:parent-is-a-file", "file:/dev/full", "dir:generated-is-a-directory", "dir:empty", "dir:existing-longer-generated", "stdout", "stdout:/dev/full",
+const DEST_STATES: [&str; 14] = [
+    "file:existing-same-length", "dir:existing-same-length-generated", "file:absent", "file:existing-shorter", "file:existing-longer", "file:missing-parent", "file:parent-is-a-file", "file:/dev/full", "dir:generated-is-a-directory", "dir:empty", "dir:existing-longer-generated", "stdout", "stdout:/dev/full",
     "none",
 ];
 
@@ -108,6 +117,8 @@ struct CaseOut {
     changes: Vec<String>,
     /// content found at the expected delivery place (if any)
     delivered: Option<Vec<u8>>,
+    /// content of that place before compile() ran
+    pre: Option<Vec<u8>>,
     exit_ok: bool,
 }
 
@@ -130,6 +141,12 @@ fn run_case(work: &Path, n: u64, backend: &str, state: &str, sources: &[(String,
         "file:existing-longer" => {
             std::fs::write(out.join(format!("gen.{ext}")), &long).ok()?;
             ("file", out.join(format!("gen.{ext}")), Some(out.join(format!("gen.{ext}"))))
+        }
+        // filled by the child once the length of the new text is known
+        "file:existing-same-length" => ("file", out.join(format!("gen.{ext}")), Some(out.join(format!("gen.{ext}")))),
+        "dir:existing-same-length-generated" => {
+            std::fs::create_dir_all(out.join("d")).ok()?;
+            ("file", out.join("d"), Some(out.join("d").join(format!("generated.{ext}"))))
         }
         "file:missing-parent" => ("file", out.join("missing").join(format!("gen.{ext}")), None),
         "file:parent-is-a-file" => {
@@ -165,8 +182,9 @@ fn run_case(work: &Path, n: u64, backend: &str, state: &str, sources: &[(String,
         }
     }
     let spec_path = dir.join("spec.json");
-    std::fs::write(&spec_path, serde_json::to_string(&json!({"backend": backend, "mode": mode, "dest": dest.to_string_lossy(), "sources": specs})).unwrap()).ok()?;
+    std::fs::write(&spec_path, serde_json::to_string(&json!({"backend": backend, "mode": mode, "dest": dest.to_string_lossy(), "sources": specs, "prefill_same_length": if state.contains("same-length") { expect_at.as_ref().map(|p| p.to_string_lossy().to_string()) } else { None }})).unwrap()).ok()?;
     let before = snapshot(&out);
+    let pre = expect_at.as_ref().and_then(|p| std::fs::read(p).ok());
     // the child's standard output is a pipe we read, or the full device (every write to it fails with ENOSPC)
     let child_stdout = if state == "stdout:/dev/full" { Stdio::from(std::fs::OpenOptions::new().write(true).open("/dev/full").ok()?) } else { Stdio::piped() };
     let child = Command::new(exe).args(["C20-child", spec_path.to_str().unwrap()]).current_dir(&dir).env_remove("CARGO").env_remove("CARGO_HOME").stdin(Stdio::null()).stdout(child_stdout).stderr(Stdio::null()).output().ok()?;
@@ -180,7 +198,7 @@ fn run_case(work: &Path, n: u64, backend: &str, state: &str, sources: &[(String,
         changes.retain(|c| !c.ends_with(&rel) && !c.contains(&format!(" {rel} ")));
     }
     let _ = std::fs::remove_dir_all(&dir);
-    Some(CaseOut { reference: verdict["reference"].clone(), result: verdict["result"].clone(), stdout: child.stdout, changes, delivered, exit_ok: child.status.success() })
+    Some(CaseOut { reference: verdict["reference"].clone(), result: verdict["result"].clone(), stdout: child.stdout, changes, delivered, pre, exit_ok: child.status.success() })
 }
 
 fn judge(state: &str, o: &CaseOut) -> Vec<(String, String)> {
@@ -196,7 +214,7 @@ fn judge(state: &str, o: &CaseOut) -> Vec<(String, String)> {
         return v;
     }
     let text = o.reference["generated"].as_str().unwrap_or("");
-    let writable = matches!(state, "file:absent" | "file:existing-shorter" | "file:existing-longer" | "dir:empty" | "dir:existing-longer-generated" | "stdout" | "none");
+    let writable = matches!(state, "file:absent" | "file:existing-shorter" | "file:existing-longer" | "file:existing-same-length" | "dir:existing-same-length-generated" | "dir:empty" | "dir:existing-longer-generated" | "stdout" | "none");
     if rs == "Ok" {
         if writable {
             if cs != "Ok" {
@@ -239,8 +257,9 @@ fn judge(state: &str, o: &CaseOut) -> Vec<(String, String)> {
             v.push(("ok-although-compilation-fails".into(), format!("compile_to_string is {rs} but compile() returned {cs}")));
         }
         let mut ch = o.changes.clone();
-        if let Some(_d) = &o.delivered {
-            // the expected place existed before? compare through the change list of the whole tree instead
+        // the delivery place itself (kept out of the change list): untouched
+        if o.delivered != o.pre {
+            ch.push(format!("destination {} -> {}", o.pre.as_ref().map_or("absent".to_string(), |p| format!("{} bytes", p.len())), o.delivered.as_ref().map_or("absent".to_string(), |p| format!("{} bytes", p.len()))));
         }
         ch.sort();
         if !ch.is_empty() {
@@ -440,7 +459,7 @@ fn inputs(seed: u64, idx: u64) -> (Vec<String>, bool) {
 pub fn run(ctx: &Ctx) -> Report {
     let mut rep = Report::new(
         "fault_enumeration",
-        "library: grammar-G module sets (valid, and every third one malformed) x both backends x sources as literals / file paths / mixed x destination state {file absent, existing shorter file, existing longer file, missing parent directory, parent is a regular file, /dev/full, directory whose generated.<ext> is itself a directory, empty directory, directory with a longer generated.<ext>, stdout, no output} — each case runs compile() in a child process (same environment as the compile_to_string() reference taken in that very process, rustfmt unavailable) with file-system snapshots of the destination tree before and after and captured stdout. CLI: the real rasn_compiler_cli built from /repo with feature cli, on directory trees (nested, .asn and .asn1, decoy files) or -m lists x {-o PATH, --stdout, --no-output, default path} x both backends, compared with the library on the same file set. Non-trivial = child finished and all observations judged; distinct by (input, backend, destination state).",
+        "library: grammar-G module sets (valid, and every third one malformed) x both backends x sources as literals / file paths / mixed x destination state {file absent, existing shorter file, existing longer file, existing file of exactly the new text's length that differs in one character (also as generated.<ext> inside a directory), missing parent directory, parent is a regular file, /dev/full, directory whose generated.<ext> is itself a directory, empty directory, directory with a longer generated.<ext>, stdout, no output} — each case runs compile() in a child process (same environment as the compile_to_string() reference taken in that very process, rustfmt unavailable) with file-system snapshots of the destination tree before and after and captured stdout. CLI: the real rasn_compiler_cli built from /repo with feature cli, on directory trees (nested, .asn and .asn1, decoy files) or -m lists x {-o PATH, --stdout, --no-output, default path} x both backends, compared with the library on the same file set. Non-trivial = child finished and all observations judged; distinct by (input, backend, destination state).",
     );
     rep.must_observe = vec!["library_cases".into(), "cli_invocations".into(), "cli_invocations[-d .]".into(), "cli_invocations[-d .DOTNAME]".into(), "cli_invocations[--stdout on /dev/full]".into(), "library_cases[stdout:/dev/full]".into(), "library_cases[failed-compilation]".into(), "library_cases[unwritable-destination]".into()];
     rep.assumptions = vec!["we run as root: unwritable destinations are produced by ENOTDIR / ENOSPC (/dev/full) / EISDIR, not by mode bits".into(), "the asn1! macro comparison (nightly -Zunpretty=expanded) is not part of this revision".into()];
@@ -477,7 +496,7 @@ pub fn run(ctx: &Ctx) -> Report {
                 local.count(&format!("library_cases[{state}]"), 1);
                 if o.reference["status"] != "Ok" {
                     local.count("library_cases[failed-compilation]", 1);
-                } else if !matches!(*state, "file:absent" | "file:existing-shorter" | "file:existing-longer" | "dir:empty" | "dir:existing-longer-generated" | "stdout" | "none") {
+                } else if !matches!(*state, "file:absent" | "file:existing-shorter" | "file:existing-longer" | "file:existing-same-length" | "dir:existing-same-length-generated" | "dir:empty" | "dir:existing-longer-generated" | "stdout" | "none") {
                     local.count("library_cases[unwritable-destination]", 1);
                 }
                 local.nontrivial.insert(hash_str(&format!("{i}|{state}|{backend}")));
